@@ -17,6 +17,7 @@ func Chunk
   loop 0 invariant 0 <= i && j == i*size && j <= rounded && rounded == div*size && div == len(slice)/size
   loop 0 invariant i <= div
   loop 0 invariant forall k :: 0 <= k && k < i ==> window(chunks[k], slice, k*size, (k+1)*size)
+  loop 0 decreases rounded - j
 
 func Windowed
   property C13
@@ -25,6 +26,7 @@ func Windowed
   ensures[pieces] forall k :: 0 <= k && k < len(result) ==> window(result[k], slice, k, k+size)
   loop 0 invariant 0 <= i && i <= lim && len(windows) == lim && lim == len(slice) - size + 1
   loop 0 invariant forall k :: 0 <= k && k < i ==> window(windows[k], slice, k, k+size)
+  loop 0 decreases lim - i
 
 func Pairs
   property C13
@@ -32,6 +34,7 @@ func Pairs
   ensures[pairs] forall k :: 0 <= k && k < len(result) ==> result[k][0] == slice[k] && result[k][1] == slice[k+1]
   loop 0 invariant 0 <= i && i <= lim && len(pairs) == lim && lim == len(slice) - 1 && fresh(pairs)
   loop 0 invariant forall k :: 0 <= k && k < i ==> pairs[k][0] == slice[k] && pairs[k][1] == slice[k+1]
+  loop 0 decreases lim - i
 
 func ChunkFunc
   property C13
@@ -41,6 +44,7 @@ func ChunkFunc
   loop 0 invariant 0 <= i && j == i*size && j <= rounded && rounded == div*size && div == len(slice)/size && i <= div
   loop 0 invariant loglen(callback) == i
   loop 0 invariant forall k :: 0 <= k && k < i ==> window(logarg(callback, 0, k), slice, k*size, (k+1)*size)
+  loop 0 decreases rounded - j
 
 func WindowedFunc
   property C13
@@ -49,6 +53,7 @@ func WindowedFunc
   ensures[pieces] forall k :: 0 <= k && k < loglen(callback) ==> window(logarg(callback, 0, k), slice, k, k+size)
   loop 0 invariant 0 <= i && i <= lim && lim == len(slice) - size + 1 && loglen(callback) == i
   loop 0 invariant forall k :: 0 <= k && k < i ==> window(logarg(callback, 0, k), slice, k, k+size)
+  loop 0 decreases lim - i
 
 func PairsFunc
   property C13
@@ -56,6 +61,7 @@ func PairsFunc
   ensures[pairs] forall k :: 0 <= k && k < loglen(callback) ==> logarg(callback, 0, k) == slice[k] && logarg(callback, 1, k) == slice[k+1]
   loop 0 invariant 0 <= i && i <= lim && lim == len(slice) - 1 && loglen(callback) == i
   loop 0 invariant forall k :: 0 <= k && k < i ==> logarg(callback, 0, k) == slice[k] && logarg(callback, 1, k) == slice[k+1]
+  loop 0 decreases lim - i
 
 // ---------------------------------------------------------------- C12
 
@@ -105,6 +111,7 @@ func Fill
   assigns elems(slice)
   loop 0 invariant 1 <= i
   loop 0 invariant forall p :: {at(slice, p)} off(slice) <= p && p < off(slice) + min(i, len(slice)) ==> at(slice, p) == value
+  loop 0 decreases len(slice) - i
 
 func Repeat
   property C12
@@ -120,6 +127,7 @@ func Reverse
   loop 0 invariant 0 <= i && j == len(slice) - 1 - i && i <= len(slice)/2
   loop 0 invariant forall k :: 0 <= k && k < i ==> slice[k] == old(slice[len(slice) - 1 - k]) && slice[len(slice) - 1 - k] == old(slice[k])
   loop 0 invariant forall k :: i <= k && k <= j ==> slice[k] == old(slice[k])
+  loop 0 decreases len(slice) - i
 
 func Concat
   property C12
@@ -168,6 +176,7 @@ func FoldReverse
   loop 0 use foldr_zero(acc, param(seed), slice)
   loop 0 use foldr_step(acc, param(seed), slice, len(slice) - 1 - i)
   loop 0 invariant -1 <= i && i < len(slice) && ident(state, foldr(acc, param(seed), slice, len(slice) - 1 - i))
+  loop 0 decreases i + 1
 
 func Map
   property C14
@@ -270,6 +279,7 @@ func TrimLeft
   ensures[stop]    len(result) > 0 ==> !memberOf(unwanted, result[0])
   loop 0 invariant base(slice) == base(param(slice)) && off(slice) >= off(param(slice)) && off(slice) + len(slice) == off(param(slice)) + len(param(slice)) && len(slice) >= 0
   loop 0 invariant forall k :: 0 <= k && k < off(slice) - off(param(slice)) ==> memberOf(unwanted, param(slice)[k])
+  loop 0 decreases len(slice)
 
 func TrimRight
   property C14
@@ -278,6 +288,7 @@ func TrimRight
   ensures[stop]    len(result) > 0 ==> !memberOf(unwanted, result[len(result) - 1])
   loop 0 invariant base(slice) == base(param(slice)) && off(slice) == off(param(slice)) && 0 <= len(slice) && len(slice) <= len(param(slice))
   loop 0 invariant forall k :: len(slice) <= k && k < len(param(slice)) ==> memberOf(unwanted, param(slice)[k])
+  loop 0 decreases len(slice)
 
 func TrimLeftFunc
   property C14
@@ -286,6 +297,7 @@ func TrimLeftFunc
   ensures[stop]    len(result) > 0 ==> !unwanted(result[0])
   loop 0 invariant base(slice) == base(param(slice)) && off(slice) >= off(param(slice)) && off(slice) + len(slice) == off(param(slice)) + len(param(slice)) && len(slice) >= 0
   loop 0 invariant forall k :: 0 <= k && k < off(slice) - off(param(slice)) ==> unwanted(param(slice)[k])
+  loop 0 decreases len(slice)
 
 func TrimRightFunc
   property C14
@@ -294,6 +306,7 @@ func TrimRightFunc
   ensures[stop]    len(result) > 0 ==> !unwanted(result[len(result) - 1])
   loop 0 invariant base(slice) == base(param(slice)) && off(slice) == off(param(slice)) && 0 <= len(slice) && len(slice) <= len(param(slice))
   loop 0 invariant forall k :: len(slice) <= k && k < len(param(slice)) ==> unwanted(param(slice)[k])
+  loop 0 decreases len(slice)
 
 func Trim
   property C14
